@@ -81,7 +81,7 @@ var addCmd = &cobra.Command{
 				cleanedArg := filepath.Clean(arg)
 				cleanedArg = strings.ReplaceAll(cleanedArg, `\`, "/")
 				_, _, isEntryFound := client.Idx.GetEntry([]byte(cleanedArg))
-				if !isEntryFound {
+				if !isEntryFound && !client.Idx.IsRegisteredAsDirectory(cleanedArg) {
 					return fmt.Errorf(`path "%s" did not match any files`, arg)
 				}
 			}
@@ -98,11 +98,25 @@ var addCmd = &cobra.Command{
 			// If the file does not exist but is registered in the index, delete it from the index
 			if _, err := os.Stat(arg); err != nil {
 				_, _, isEntryFound := client.Idx.GetEntry([]byte(cleanedArg))
-				if !isEntryFound {
+				if isEntryFound {
+					if err := client.Idx.DeleteEntry(client.RootGoitPath, []byte(cleanedArg)); err != nil {
+						return fmt.Errorf("fail to delete untracked file %s: %w", cleanedArg, err)
+					}
+					continue
+				}
+				if !client.Idx.IsRegisteredAsDirectory(cleanedArg) {
 					return fmt.Errorf(`path "%s" did not match any files`, arg)
 				}
-				if err := client.Idx.DeleteEntry(client.RootGoitPath, []byte(cleanedArg)); err != nil {
-					return fmt.Errorf("fail to delete untracked file %s: %w", cleanedArg, err)
+				// a tracked directory that no longer exists: unstage every tracked path beneath it
+				// (copy the paths first since DeleteEntry changes the index entries)
+				var relPaths []string
+				for _, entry := range client.Idx.GetEntriesByDirectory(cleanedArg) {
+					relPaths = append(relPaths, string(entry.Path))
+				}
+				for _, relPath := range relPaths {
+					if err := client.Idx.DeleteEntry(client.RootGoitPath, []byte(relPath)); err != nil {
+						return fmt.Errorf("fail to delete untracked file %s: %w", relPath, err)
+					}
 				}
 				continue
 			}
